@@ -264,11 +264,15 @@ def bounds_helpers(ctx: Context) -> Tuple[FuncInfo, FuncInfo]:
         if not {"periodic", "reflective"} <= set(fi.params):
             continue
         has_cmp = any(isinstance(n, ast.Compare) and any(isinstance(o, (ast.GtE, ast.LtE, ast.Gt, ast.Lt)) for o in n.ops) for n in walk_no_nested(fi.node))
-        has_mod = any(isinstance(n, ast.BinOp) and isinstance(n.op, ast.Mod) for n in walk_no_nested(fi.node))
-        rets = [r for r in walk_no_nested(fi.node) if isinstance(r, ast.Return) and r.value is not None]
-        if has_mod and all(isinstance(r.value, ast.Name) for r in rets) and len(fi.params) == 3:
+        first = fi.params[0]
+        stores = any(isinstance(n, (ast.Assign, ast.AugAssign)) and isinstance((n.targets[0] if isinstance(n, ast.Assign) else n.target), ast.Subscript)
+                     and isinstance((n.targets[0] if isinstance(n, ast.Assign) else n.target).value, ast.Name)
+                     and (n.targets[0] if isinstance(n, ast.Assign) else n.target).value.id == first for n in walk_no_nested(fi.node))
+        if len(fi.params) != 3:
+            continue
+        if stores:
             bmap = fi
-        elif has_cmp and not has_mod and len(fi.params) == 3:
+        elif has_cmp:
             pred = fi
     if pred is None or bmap is None:
         raise AnalysisError("C07.c: boundary map / bounds predicate not found by role")
